@@ -128,6 +128,13 @@ def _prepare(prop, out):
     if rc != 0 or not os.path.exists(DRIVER):
         out['infra_error'] = 'lake build failed:\n' + log[-1500:]
         return out
+    # private copy of the driver for this run: a concurrent build may relink the shared binary
+    import atexit
+    import shutil
+    mine = os.path.join(WORK, 'btcmodel.run.%d' % os.getpid())
+    shutil.copy2(DRIVER, mine)
+    os.environ['VERIF_DRIVER'] = mine
+    atexit.register(lambda: os.path.exists(mine) and os.remove(mine))
 
     # T1: regenerate and re-prove the table obligations
     tables = {}
